@@ -287,7 +287,8 @@ def gen(stratum, rng, tier):
         configs = [{"max_nodes": 300}, {"heuristics": False, "max_nodes": 300}]
     else:
         raise ValueError(stratum)
-    return {"c": c, "A": A, "b": b, "ints": ints, "minimize": minimize, "configs": configs}
+    return {"c": c, "A": A, "b": b, "ints": ints, "minimize": minimize, "configs": configs,
+            "container": rng.choice(["list", "list", "tuple"])}
 
 
 # ------------------------------------------------------------------ oracle + judge
@@ -383,7 +384,11 @@ def run(case, obs):
     for cfg in case["configs"]:
         _lpmon.drain()
         _l2["bad"].clear()
-        res = call(obs, _milp.solve_milp, c, A, b, ints, minimize=case["minimize"], what="solve_milp", budget=30_000_000, **cfg)
+        if case.get("container") == "tuple":  # Sequence[...] arguments: tuples are as valid as lists
+            args = (tuple(c), tuple(tuple(r) for r in A), tuple(b), tuple(ints))
+        else:
+            args = (c, A, b, ints)
+        res = call(obs, _milp.solve_milp, *args, minimize=case["minimize"], what="solve_milp", budget=30_000_000, **cfg)
         for rec in _lpmon.drain():
             if rec["fn"] == "solve_lp":
                 _lpmon.judge_simplex(rec, obs, prefix="nested.")
